@@ -773,6 +773,65 @@ fn run_vtree(t: &[&str], st: &mut Stats) -> Outcome {
         }
     }
     out.push_str(&format!(" lca={lca_s} pr={pr_s}"));
+    // the pointer-level entry point is_prime(SddPtr, SddPtr): literals, binary decisions and general
+    // decision nodes built by an SDD builder over this vtree; a pointer stands for the vtree node
+    // it is normalised for (a literal for its leaf), and the relation must be the tree's
+    if distinct.len() == leaves.len() && leaves.len() >= 2 && leaves.len() <= 8 {
+        use rsdd::builder::sdd::{CompressionSddBuilder, SddBuilder};
+        use rsdd::builder::BottomUpBuilder;
+        use rsdd::repr::SddPtr;
+        let sb = CompressionSddBuilder::new(tree.clone());
+        let lits: Vec<SddPtr> = leaves.iter().map(|l| sb.var(VarLabel::new_usize(*l), true)).collect();
+        let mut ptrs: Vec<SddPtr> = lits.clone();
+        for i in 0..lits.len() {
+            for j in 0..lits.len() {
+                if i != j {
+                    ptrs.push(sb.and(lits[i], lits[j]));
+                    ptrs.push(sb.or(lits[i], sb.negate(lits[j])));
+                    if i < j { ptrs.push(sb.xor(lits[i], lits[j])); }
+                }
+            }
+        }
+        if lits.len() >= 3 {
+            for i in 0..lits.len() - 2 {
+                let f = sb.and(lits[i], sb.or(lits[i + 1], lits[i + 2]));
+                ptrs.push(f);
+                ptrs.push(sb.iff(f, lits[(i + 2) % lits.len()]));
+            }
+        }
+        ptrs.retain(|p| !p.is_const());
+        ptrs.dedup();
+        let node_of = |p: &SddPtr| -> usize {
+            match p {
+                SddPtr::Var(l, _) => w.leaf_idx[&l.value_usize()],
+                _ => p.vtree().value(),
+            }
+        };
+        let mut bad = 0;
+        for a in &ptrs {
+            for b in &ptrs {
+                let (ia, ib) = (node_of(a), node_of(b));
+                // tree relation recomputed as above
+                let (ca, cb) = (chain(&w, ia), chain(&w, ib));
+                let want = *ca.iter().find(|x| cb.contains(x)).unwrap();
+                let below = |x: usize, right: bool| -> bool {
+                    if x == want { return true; }
+                    let ch = chain(&w, x);
+                    let pos = ch.iter().position(|y| *y == want).unwrap();
+                    w.side[ch[pos - 1]] == right
+                };
+                let want_p = ia != ib && below(ia, false) && below(ib, true);
+                let got = mgr.is_prime(*a, *b);
+                if got != want_p {
+                    bad += 1;
+                    if bad <= 2 {
+                        fails.push(format!("is_prime on pointers normalised for vtree nodes {ia} and {ib} ({} / {}) = {got}, tree relation gives {want_p}", if matches!(a, SddPtr::Var(..)) { "literal" } else if matches!(a, SddPtr::BDD(_) | SddPtr::ComplBDD(_)) { "binary decision" } else { "decision node" }, if matches!(b, SddPtr::Var(..)) { "literal" } else if matches!(b, SddPtr::BDD(_) | SddPtr::ComplBDD(_)) { "binary decision" } else { "decision node" }));
+                    }
+                }
+            }
+        }
+        st.add("V:pointer_level_is_prime_pairs", (ptrs.len() * ptrs.len()) as u64);
+    }
     Outcome { result: out, fails, nontrivial: leaves.len() >= 3 }
 }
 
